@@ -2,7 +2,7 @@
 EXTENDS ThreadPool
 \* the call pattern of the parallel router / kernels, twice, then the destructor
 ProgA == << <<"resume">>, <<"resize", 2>>, <<"run", 0, 5, 0>>, <<"pause">>,
-            <<"resume">>, <<"resize", 2>>, <<"run", 0, 1, 0>>, <<"pause">>, <<"stop">> >>
+            <<"resume">>, <<"resize", 1>>, <<"run", 0, 1, 0>>, <<"pause">>, <<"stop">> >>
 \* two resizes, several runs per cycle (level loop of apply_kernel_par), min block size
 ProgB == << <<"resume">>, <<"resize", 3>>, <<"run", 0, 7, 0>>, <<"run", 2, 6, 2>>, <<"pause">>,
             <<"resume">>, <<"resize", 2>>, <<"run", 0, 4, 0>>, <<"pause">>,
